@@ -231,6 +231,20 @@ func lemmaJSONControlState(v ControlState) (ControlState, bool) {
 	return x, true
 }
 
+func lemmaJSONDateTime(d DateTime) (DateTime, bool) {
+	b, err := d.MarshalJSON()
+	if err != nil {
+		return DateTime{}, false
+	}
+
+	var x DateTime
+	if err := x.UnmarshalJSON(b); err != nil {
+		return DateTime{}, false
+	}
+
+	return x, true
+}
+
 func lemmaJSONDate(d Date) (Date, bool) {
 	b, err := d.MarshalJSON()
 	if err != nil {
